@@ -34,6 +34,10 @@ def one(args):
 def main():
     jobs = int(sys.argv[sys.argv.index('--jobs') + 1]) if '--jobs' in sys.argv else 8
     seeds = sorted(glob.glob('/verif/seeded/C*-*'))
+    if '--only' in sys.argv:
+        # e.g. --only IJ : only seeds whose label is one of these letters; the result is merged into the existing matrix
+        letters = sys.argv[sys.argv.index('--only') + 1]
+        seeds = [s for s in seeds if s[-1] in letters]
     roots = {}
     for s in seeds:
         r = prep(s)
@@ -49,6 +53,10 @@ def main():
         for r in roots.values():
             shutil.rmtree(r, ignore_errors=True)
         subprocess.run("find /verif/replays -name '*.json' -delete", shell=True)
+    if '--only' in sys.argv and os.path.exists('/verif/seeded/MATRIX.json'):
+        old = json.load(open('/verif/seeded/MATRIX.json'))
+        old.update(res)
+        res = old
     json.dump(res, open('/verif/seeded/MATRIX.json', 'w'), indent=1, sort_keys=True)
     for s in sorted(res):
         print(s, 'caught by', [c for c in CHECKS if res[s].get(c) == 1], 'inconclusive', [c for c in CHECKS if res[s].get(c) == 2])
